@@ -215,9 +215,9 @@ type SExp struct {
 }
 
 type Stage struct {
-	Name               string
-	Ins, Outs          []Field
-	Split              bool
+	Name                string
+	Ins, Outs           []Field
+	Split               bool
 	ChunkIns, ChunkOuts []Field
 	// behaviour
 	MainOuts   map[string]*SExp // non-split: outs; split: join outs
